@@ -232,6 +232,25 @@ def run_case(case):
                     out.append(("path-eq", True, None, viol, {"hash-eq": 1}))
             except ValueError:
                 pass
+        # a contract that is hashed, simplified in place and hashed again must still agree with an equal twin
+        try:
+            red = dict(case["base"])
+            if red["g"]:
+                t0 = red["g"][0]
+                red["g"] = list(red["g"]) + [[dict(t0[0]), t0[1] + 5]]  # a redundant copy of the first guarantee
+                k1 = contract(red, simplify=False)
+                hash(k1)
+                k1.simplify()
+                k2 = contract(red, simplify=False)
+                k2.simplify()
+                viol = None
+                if not (k1 == k2):
+                    viol = {"sub": [fam, "hash-simplify"], "what": "two equal contracts simplified in place are not =="}
+                elif hash(k1) != hash(k2):
+                    viol = {"sub": [fam, "hash-simplify", "hash"], "what": "a contract hashed before an in-place simplify() keeps a stale hash: == to its twin but hashes differently"}
+                out.append(("path-eq", True, None, viol, {"hash-eq": 1}))
+        except ValueError:
+            pass
         base = contract(case["base"])  # default simplification
         out += _copies(base, [("copy()", lambda c: c.copy()),
                               ("dict round trip", lambda c: PolyhedralIoContract.from_dict(c.to_machine_dict())),
